@@ -29,6 +29,7 @@ class FnRec:
         self.n_loops = 0
         self.n_debug_asserts = 0
         self.external_body = False
+        self.module = None
 
 
 class Unit:
@@ -39,6 +40,9 @@ class Unit:
         self.fns = []
         self.tmpl_clauses = []  # clauses outside //@fn blocks (gen_line,id,tags)
         self.includes = []
+        self.cur_module = None
+        self.prologue = None   # (text, tmpl_rel, line) inserted as first statement of every woven fn body
+        self.modules = []
 
     def emit(self, text, origin):
         self.lines.append(text)
@@ -159,6 +163,7 @@ def weave_fn(unit, tmpl_rel, blk):
     rec.src_line = first_line
     rec.src_hash = sha(orig)
     rec.impl_header = header
+    rec.module = unit.cur_module
 
     replaces = [(a, b) for (k, a, b) in blk['replaces']]
     text, fired = rules.apply_global(orig)
@@ -234,6 +239,9 @@ def weave_fn(unit, tmpl_rel, blk):
             body_lines = body.split('\n')
             off = sum(len(x) + 1 for x in body_lines[:li + (1 if kind == 'after' else 0)])
             inserts.setdefault(off, []).append((lines, kind))
+    if unit.prologue and 'external_body' not in blk['flags']:
+        pt, prel, pln = unit.prologue
+        inserts.setdefault(1, []).insert(0, ([('        ' + pt, pln)], 'prologue'))
     if blk['kv'].get('loops'):
         if int(blk['kv']['loops'][0]) != len(loops):
             raise ExtractError('lost anchor: %s has %d loops, contract expects %s'
@@ -282,8 +290,8 @@ def weave_item(unit, tmpl_rel, blk):
     if blk['kind'] == 'struct':
         text2 = re.sub(r'^(\s+)(?:pub(?:\([a-z]+\))?\s+)?(\w+\s*:)', r'\1pub \2', text2, flags=re.M)
         # tuple struct: Timestamp(u64) -> pub u64
-        text2 = re.sub(r'^((?:pub(?:\([a-z]+\))?\s+)?struct\s+\w+)\((?:pub\s+)?', r'\1(pub ', text2)
-    text2 = re.sub(r'^(?:pub(?:\([a-z]+\))?\s+)?(struct|enum|const|trait|type)\b', r'pub \1', text2, count=1)
+        text2 = re.sub(r'^((?:pub(?:\([a-z]+\))?\s+)?struct\s+\w+)\((?:pub\s+)?', r'\1(pub ', text2, flags=re.M)
+    text2 = re.sub(r'^(?:pub(?:\([a-z]+\))?\s+)?(struct|enum|const|trait|type)\b', r'pub \1', text2, count=1, flags=re.M)
     replaces = [(a, b) for (k, a, b) in blk['replaces']]
     text2, _ = rules.apply_local(text2, replaces, blk['name'])
     for attr in blk['attrs']:
@@ -308,6 +316,15 @@ def load_template(unit, path, srcmap, seen=None):
             inc = os.path.join(os.path.dirname(path), s.split()[1])
             unit.includes.append(os.path.relpath(inc, VERIF))
             load_template(unit, inc, srcmap, seen)
+            i += 1
+        elif s.startswith('//@module '):
+            unit.cur_module = s.split()[1]
+            if unit.cur_module not in unit.modules:
+                unit.modules.append(unit.cur_module)
+            i += 1
+        elif s.startswith('//@prologue'):
+            t = s[len('//@prologue'):].strip()
+            unit.prologue = (t, rel, lno) if t else None
             i += 1
         elif s.startswith('//@src '):
             m = re.match(r'//@src\s+(\w+)\s*=\s*(\S+)', s)
@@ -369,11 +386,13 @@ def load_template(unit, path, srcmap, seen=None):
             cm = CLAUSE_RE.search(ln)
             if cm and '//#' in ln:
                 ctags = [x for x in (cm.group(2) or '').replace(',', ' ').split() if x]
-                unit.tmpl_clauses.append((len(unit.lines), cm.group(1), ctags or None))
+                unit.tmpl_clauses.append((len(unit.lines), cm.group(1), ctags or None, unit.cur_module))
             i += 1
 
 
-def build_unit(name):
+def build_unit(name='cfb'):
+    """The whole crate is one generated file (one Verus `mod` per source
+    module); checks verify only the modules a property needs."""
     reset_sources()
     unit = Unit(name)
     path = os.path.join(VERIF, 'contracts', name + '.vc')
